@@ -544,3 +544,69 @@ Definition grammar_env (g : list (sym * ptempl)) (keep : list sym) (start : sym)
 
 Definition seq_syms (g : list (sym * ptempl)) : list sym :=
   flat_map (fun e => match snd e with QSeq _ => [fst e] | _ => [] end) g.
+
+(* ------------------------------------------------------------------ *)
+(* vocabulary of the theorems: derivation trees of generated            *)
+(* productions, template frontier, yield (definitions only)             *)
+
+Fixpoint plookup (P : prods) (n : sym) : option (list (list sym)) :=
+  match P with
+  | [] => None
+  | (k, v) :: r => if sym_eqb k n then Some v else plookup r n
+  end.
+
+Definition is_nil {A} (l : list A) : bool := match l with [] => true | _ => false end.
+
+(* [t] is a derivation tree with respect to the productions [P]: an element
+   named by a symbol of [P] is empty for an empty production or an inner
+   element whose children spell one of the symbol's productions; an element of
+   any other name (a symbol defined elsewhere, a token) is not constrained *)
+Fixpoint valid (P : prods) (t : rt) : bool :=
+  match plookup P (rname t) with
+  | None => true
+  | Some alts =>
+      match t with
+      | RNull _ => existsb (syms_eqb []) alts
+      | RNode _ ch => negb (is_nil ch) && existsb (syms_eqb (map rname ch)) alts && forallb (valid P) ch
+      | _ => false
+      end
+  end.
+
+(* the maximal subtrees of symbols that [P] does not define, in source order *)
+Fixpoint frontier (P : prods) (t : rt) : list rt :=
+  match plookup P (rname t) with
+  | None => [t]
+  | Some _ => match t with RNode _ ch => flat_map (frontier P) ch | _ => [] end
+  end.
+
+(* names of the matched tokens, in source order *)
+Fixpoint yield (t : rt) : list sym :=
+  match t with
+  | RTok n _ => [n]
+  | RNull _ => []
+  | RNode _ ch => flat_map yield ch
+  | RSeq _ ch => flat_map yield ch
+  end.
+
+Definition is_tok (t : rt) : bool := match t with RTok _ _ => true | _ => false end.
+
+
+(* every subtree named by a template symbol is a derivation tree of the
+   productions generated for that template (checked on the implementation's
+   trees by the correspondence run: the hypothesis of the denotation theorems) *)
+Fixpoint subtrees (t : rt) : list rt :=
+  t :: match t with RNode _ ch | RSeq _ ch => flat_map subtrees ch | _ => [] end.
+
+Fixpoint spec_get (g : list (sym * ptempl)) (s : sym) : option ptempl :=
+  match g with
+  | [] => None
+  | (k, v) :: r => if sym_eqb k s then Some v else spec_get r s
+  end.
+
+Definition templates_valid (with_seq : bool) (g : list (sym * ptempl)) (t : rt) : bool :=
+  forallb (fun s => match spec_get g (rname s) with
+                    | Some (QList T) => valid (list_gen T) s
+                    | Some (QMap T) => valid (map_gen T) s
+                    | Some (QSeq syms) => if with_seq then valid (seq_gen (rname s) syms) s else true
+                    | _ => true
+                    end) (subtrees t).
